@@ -313,7 +313,14 @@ def spec_forward_barrier(row, weak=False):
                 # a weak mark (White -> WhiteWeak) outside the mark phase harms only the weak-pointer clauses
                 # (upgrade refuses a reachable target during the sweep; a shell is kept one cycle longer)
                 only_weak_mark = weak and all(k[0] == "obj" and k[2] == "colour" and v == ("W", "WW") for k, v in dd.items())
-                probs.append("%sbarrier outside the mark phase changed state: %s" % ("[overmark] " if only_weak_mark else "", dd))
+                # a strong mark of the child outside the mark phase (child W/WW -> G queued, or -> B) endangers nothing:
+                # the child is held by the mutator, hence not condemned by a running sweep, and a marked object is
+                # only retained longer (it starts the next cycle marked). That breaks exactness (C02), not safety.
+                only_strong_mark = (not weak) and all(
+                    (k == ("obj", 2, "colour") and v[0] in ("W", "WW") and v[1] in ("G", "B")) or
+                    (k == ("ctx", "gray") and tuple(v[1]) == tuple(v[0]) + (2,)) for k, v in dd.items())
+                tag = "[overmark] " if only_weak_mark else ("[overmark-strong] " if only_strong_mark else "")
+                probs.append("%sbarrier outside the mark phase changed state: %s" % (tag, dd))
             continue
         c_post = _post_colour(out, 2)
         needs = pre["parent"] in ("None", "B") or (pre["parent"] == "alias" and pre["C"] == "B")
